@@ -271,7 +271,36 @@ def _drive(ctx, fs, kind, cap, ops, keytype):
                 upd = dict(pairs)
                 # MutableMapping.update stores one by one in the order of the argument
                 # (run through the real update once: content is checked below, the model applies the same stores)
-                if len(set(d) | set(upd)) <= cap:
+                if lru and len(set(d) | set(upd)) > cap:
+                    # an update that overflows the cache: MutableMapping.update stores the items one by one in the order given,
+                    # and after every step all admissible LRU models agree on the recency order (it is observed), so the
+                    # outcome is determined: simulate the stores on (order, content) and compare with the real update()
+                    as_dict = bool(len(pairs) % 2)
+                    arg = dict(pairs) if as_dict else list(pairs)
+                    seq = list(arg.items()) if as_dict else list(arg)
+                    order = list(next(iter(cands))[1])
+                    content = dict(d)
+                    for kk, vv in seq:
+                        if kk in content:
+                            order.remove(kk)
+                        elif len(content) >= cap:
+                            victim = order.pop()
+                            del content[victim]
+                        content[kk] = vv
+                        order.insert(0, kk)
+                    run("update", lambda: c.update(arg))
+                    ks_ = keys_now("update")
+                    if not ctx.need(ks_ == order, "%s/update/differs-from-the-same-stores-one-by-one" % name,
+                                    lambda: "update(%r) on a cache of capacity %d holding %r left keys %r; storing the items one by one gives %r"
+                                    % (arg, cap, list(d), ks_, order)):
+                        raise _Stop()
+                    d.clear()
+                    d.update(content)
+                    cands = {(p, tuple(order)) for p, _ in cands}
+                    st_["reordered"] = True
+                    ctx.label("update-with-overflow")
+                    ctx.label("eviction")
+                elif len(set(d) | set(upd)) <= cap:
                     run("update", lambda: c.update(pairs))
                     for kk, vv in pairs:
                         if kk in d:
@@ -350,11 +379,11 @@ def decode(code, restore_heavy):
     if op in ("get", "del", "in", "getd", "pop"):
         return [op, k]
     if op == "update":
-        n = x % 4
-        x //= 4
+        n = x % 7
+        x //= 7
         pairs = []
         for i in range(n):
-            pairs.append([(k + (x % 5) * i + i) % 9, (v + i) % 100])
+            pairs.append([(k + (x % 5) * i + i) % (5 if i % 2 else 9), (v + i) % 100])
         return [op, pairs]
     return [op]
 
